@@ -1139,12 +1139,12 @@ func (c *Checker) checkMethod(
 ) (ast.TypeNode, ast.TypeNode) {
 	prevCatchScopes := c.catchScopes
 	c.catchScopes = nil
+	prevFlags := c.flags
 	prevHasDefer := c.hasDefer()
 	c.setHasDefer(false)
 
 	name := checkedMethod.Name
 	prevMode := c.mode
-	prevFlags := c.flags
 	prevReturnType := c.returnType
 	prevThrowType := c.throwType
 	isClosure := types.IsCallable(methodNamespace)
